@@ -675,3 +675,4 @@ MANIFEST_TEXT_EXTRA['C11']['text'] = MANIFEST_TEXT_EXTRA['C11']['text'].replace(
     'Non-vacuity: an admissible policy with an OutputFull round',
     'THIRD ROUND (Thm/C11EncTerm.lean) - Encoding::encode returns: encodeLoop_outcome / encodeV_terminates / encode_terminates (for every output encoding, every valid &str with 204*len+142 <= usize::MAX, every allocator slack and EVERY admissible stop policy of the inner raw calls, the model returns ok for every fuel >= len+2: each round offers at least max_buffer_length_from_utf8_if_no_unmappables(rest) spare bytes - the first allocation, and re-established by every reserve_exact - so by C07 enc_repl_sufficient_had an OutputFull round replaced something and therefore consumed >= 1 unit, encRepl_outputFull_read_pos: at most len+1 rounds; the capacity never overflows because an OutputFull return left at most 13 bytes unused, encRepl_outputFull_filled, so the capacity is bounded by the output whatever the allocator granted), encodeV_panic_length (a panic outcome implies usize::MAX < 204*len+142, no fuel hypothesis), encodeV_total (returns AND equals the reference), encodeLoop_wrap_diverges (without a length bound the unchecked next_power_of_two can wrap to 0 and the loop diverges), executable admissibility checker encodeVAdmissibleB (proved sound) with a kernel-evaluated run that has an OutputFull round and a reserve_exact. '
     'Non-vacuity: an admissible policy with an OutputFull round')
+
